@@ -30,7 +30,31 @@ def _load():
     from . import selftest_cases  # noqa: F401  (fills REGISTRY)
 
 
+CASE_TIMEOUT = 420
+
+
 def _one(case):
+    import signal
+
+    def _alarm(sig, frm):
+        raise TimeoutError()
+    try:
+        signal.signal(signal.SIGALRM, _alarm)
+        signal.alarm(CASE_TIMEOUT)
+    except Exception:
+        pass
+    try:
+        return _one_inner(case)
+    except TimeoutError:
+        return (case[0], case[1], case[2], 'TIMEOUT', 'analysis did not finish within %d s' % CASE_TIMEOUT)
+    finally:
+        try:
+            signal.alarm(0)
+        except Exception:
+            pass
+
+
+def _one_inner(case):
     prop, kind, name, file, old, new, rule = case
     edits = file if isinstance(file, list) else [(file, old, new)]
     overlay = {}
@@ -81,7 +105,9 @@ def run_for(prop, jobs=None):
             continue
         if kind == 'mutant':
             out['mutants'] += 1
-            if status in ('ok', 'ok-other-rule', 'ok-as-error'):
+            if status == 'TIMEOUT':
+                out['failures'].append('mutant %s: %s' % (name, detail))
+            elif status in ('ok', 'ok-other-rule', 'ok-as-error'):
                 out['mutants_detected'] += 1
             else:
                 out['failures'].append('mutant %s not detected: %s' % (name, detail))
